@@ -27,7 +27,8 @@ mutual
         [ind i ++ "try:"] ++ renderPyB (i+4) body ++ renderPyHandlers i hs ++
           (if els.isNil then [] else [ind i ++ "else:"] ++ renderPyB (i+4) els) ++
           (if fin.isNil then [] else [ind i ++ "finally:"] ++ renderPyB (i+4) fin)
-    | .mtch cases => [ind i ++ "match a:"] ++ renderPyCases (i+4) cases
+    | .mtch cases dflt => [ind i ++ "match a:"] ++ renderPyCases (i+4) cases ++
+        (if dflt.isNil then [] else [ind (i+4) ++ "case _:"] ++ renderPyB (i+8) dflt)
     | .clos body => [ind i ++ "def inner():"] ++ renderPyB (i+4) body
   def renderPyB (i : Nat) : Body → List String
     | .nil => []
@@ -60,7 +61,8 @@ mutual
     | .tryc body hs _ fin =>
         [ind i ++ "try {"] ++ renderTsB (i+2) body ++ renderTsCatch i hs ++
           (if fin.isNil then [] else [ind i ++ "} finally {"] ++ renderTsB (i+2) fin) ++ [ind i ++ "}"]
-    | .mtch cases => [ind i ++ "switch (a) {"] ++ renderTsCases (i+2) cases ++ [ind i ++ "}"]
+    | .mtch cases dflt => [ind i ++ "switch (a) {"] ++ renderTsCases (i+2) cases ++
+        (if dflt.isNil then [] else [ind (i+2) ++ "default:"] ++ renderTsB (i+4) dflt ++ [ind (i+4) ++ "break;"]) ++ [ind i ++ "}"]
   def renderTsB (i : Nat) : Body → List String
     | .nil => []
     | .cons c r => renderTs i c ++ renderTsB i r
@@ -85,7 +87,8 @@ mutual
           renderRsB (i+4) body ++ [ind i ++ "}"]
     | .wth _ body => [ind i ++ "{"] ++ renderRsB (i+4) body ++ [ind i ++ "}"]
     | .tryc body _ _ _ => [ind i ++ "{"] ++ renderRsB (i+4) body ++ [ind i ++ "}"]
-    | .mtch cases => [ind i ++ "match a {"] ++ renderRsArms (i+4) cases ++ [ind i ++ "}"]
+    | .mtch cases dflt => [ind i ++ "match a {"] ++ renderRsArms (i+4) cases ++
+        (if dflt.isNil then [] else [ind (i+4) ++ "_ => {"] ++ renderRsB (i+8) dflt ++ [ind (i+4) ++ "}"]) ++ [ind i ++ "}"]
     | .clos body => [ind i ++ "let c = || {"] ++ renderRsB (i+4) body ++ [ind i ++ "};"]
   def renderRsB (i : Nat) : Body → List String
     | .nil => []
